@@ -56,6 +56,10 @@ RULE = ('template trees over constant/function/table/point atoms, sequence, repe
         'correspondence-only twin (CTwin: judged by check_corr alone, the operational model describes the finding exactly), so '
         'a change of behaviour inside such a class is still reported; table `concatenate` is described to Coq as the ONE '
         'table it builds (entry times = sums of expressions).  '
+        'Round 6: deterministic family "declared" (AtomicMultiChannelPT with an enforced duration and 0 / 1 / 2 sub waveforms '
+        'left: a single part, parts dropped by MappingPT / root mapping / create_program(channel_mapping), a part of duration 0; '
+        'declared value equal / larger / smaller / zero / decimal / within isclose; ramp / constant / function / point first '
+        'part; alone, SequencePT(RepetitionPT(p, n), p), as one waveform, in a for-loop: 168 cases quick, 1440 thorough).  '
         'Non-trivial = composite template (depth >= 2) or non-empty range.')
 TRUSTED = [
     'Coq 8.16.1 kernel + vm_compute (no native_compute)',
@@ -883,6 +887,16 @@ def gen_remap_cases(tier):
             for tpl in tpls if tier == 'thorough' else tpls[j % 3:j % 3 + 2]:
                 cases.append({'kind': 'tpl', 'style': 'exact', 'tpl': tpl, 'params': {'i': tparam('3', 'int'), 'a': tparam('0.5', 'time')},
                               'family': 'capture'})
+    # round 6 (defect repaired in /repo c936965): the range of an OUTER loop mentions a parameter named like the index of an
+    # INNER loop (the closed form of the inner sum is substituted into the outer one: the bound name must not capture it)
+    for rg in ((var('k'), op('add', var('k'), lit(2)), 1), (lit(0), var('k'), 1), (var('k'), lit(0), -2),
+               (op('mul', var('k'), lit(2)), op('add', op('mul', var('k'), lit(2)), lit(3)), 2)):
+        for inner_stop in (lit(2), var('i')):
+            inner = {'t': 'for', 'idx': 'k', 'start': lit(0), 'stop': copy.deepcopy(inner_stop), 'step': lit(1),
+                     'body': {'t': 'seq', 'subs': [c0(op('add', lit(1), var('i'))), {'t': 'rep', 'count': var('k'), 'body': c0(var('a'))}]}}
+            tpl = {'t': 'for', 'idx': 'i', 'start': rg[0], 'stop': rg[1], 'step': lit(rg[2]), 'body': inner}
+            cases.append({'kind': 'tpl', 'style': 'exact', 'tpl': tpl, 'params': {'k': tparam('3', 'int'), 'a': tparam('0.5', 'time')},
+                          'family': 'capture'})
     return cases
 
 
@@ -2025,9 +2039,14 @@ MANIFEST = {
                   'signs, C04_step_count_forms_agree (code\'s floor form = model\'s ceiling form on integer ranges), the '
                   'expression-level substitution lemma, and (round 5) C04_scope_prog_sound / C04_scope_sym_sound: the '
                   'specification\'s own static scope analysis never judges a case in which the model computes with floats.  '
+                  'Round 6: for inputs without any float (every parameter value and every literal an int or a TimeType) the '
+                  'code and its decimal reading are the same function (C04_exact_inputs_same_reading), so the reading guard '
+                  'g_view is derived from this INPUT condition and C04_agree_exact_inputs / '
+                  'C04_program_views_agree_exact_inputs hold without it.  '
                   'Proved under guards: C04_program_views_agree / C04_agree (Loop.duration = single waveform = sum of pieces = '
                   'symbolic duration, empty program <=> 0) under g_view (binary and decimal reading build the same program), '
-                  '"no finding class met" and g_uniform (all leaves define the same channels) - g_view and g_uniform are '
+                  '"no finding class met" and g_uniform (all leaves define the same channels) - g_view (still needed for '
+                  'decimals handed over as Python floats) and g_uniform are '
                   'conditions on the model\'s OUTPUT, not input conditions; that to_waveform exists is therefore assumed, '
                   'its value is proved.  One refuting witness per finding class.  Tested only (not proved): that the '
                   'implementation represents ints/decimals exactly and does not accumulate error (the float->decimal '
